@@ -32,7 +32,9 @@ def isResize (e : Entry) : Bool := match e.call with
 def isUpdate (e : Entry) : Bool := match e.call with | .updateNode _ => true | _ => false
 def isGet (e : Entry) : Bool := match e.call with | .getNode _ => true | _ => false
 
-def aspectsOf (dry : Bool) (view : View) (jm jo : Journal) : List String :=
+def aspectsOf (dry : Bool) (view : View) (jm0 jo0 : Journal) : List String :=
+  let jm := Spec.canonTaints jm0
+  let jo := Spec.canonTaints jo0
   let a (name : String) (p : Entry → Bool) : List String := if jm.filter p == jo.filter p then [] else [name]
   (if dry then a "drywrites" Spec.isWrite else []) ++
   a "removals" isRemoval ++ a "taintadds" (Spec.isTaintAdd view) ++ a "untaints" (Spec.isTaintRemove view) ++
